@@ -162,7 +162,7 @@ func init() {
 		Engines:      E{tmpl.RunDetPure},
 		RulePrefixes: []string{"T.det", "T.pure", "T.anchor"},
 		Floors: []core.Floor{
-			{Rule: "T.det", Min: 4, Why: "2 map ranges + 2 sort.Slice comparators"},
+			{Rule: "T.det", Min: 2, Why: "2 map ranges (sort comparators are checked when present)"},
 			{Rule: "T.pure", Min: 12, Why: "7 package scans + registration write + 2 GenerateHelpers + 3 reader scans"},
 		},
 		Explanation: "Effect/who-may-call rules on all generator packages; see level text.",
